@@ -123,6 +123,28 @@ pub struct BatchOut {
     pub harness_errors: Vec<String>,
 }
 
+static PROGRESS: Mutex<Option<(PathBuf, u64, u64)>> = Mutex::new(None);
+
+/// Tell the parent's hang watchdog that this shard is alive (shrinking and confirming a
+/// violation executes many runs without starting a new batch run).
+pub fn heartbeat() {
+    if let Ok(mut g) = PROGRESS.lock() {
+        if let Some((p, i, n)) = g.as_mut() {
+            *n += 1;
+            let _ = std::fs::write(&*p, format!("{i} busy{n}"));
+        }
+    }
+}
+
+fn progress_start(cfg_file: &Option<PathBuf>, i: u64) {
+    if let Some(p) = cfg_file {
+        let _ = std::fs::write(p, format!("{i}"));
+        if let Ok(mut g) = PROGRESS.lock() {
+            *g = Some((p.clone(), i, 0));
+        }
+    }
+}
+
 pub fn case_hash<C: Serialize>(c: &C) -> u64 {
     crate::fnv_str(&serde_json::to_string(c).unwrap())
 }
@@ -195,9 +217,7 @@ pub fn run_batch<S: Scenario>(s: &S, cfg: &BatchCfg) -> BatchOut {
                     if cfg.budget_s > 0.0 && t0.elapsed().as_secs_f64() > cfg.budget_s {
                         break;
                     }
-                    if let Some(p) = &cfg.progress_file {
-                        let _ = std::fs::write(p, format!("{i}"));
-                    }
+                    progress_start(&cfg.progress_file, i);
                     let run_seed = mix(mix(cfg.seed, prop_tag), i);
                     let mut rng = Rng::new(run_seed);
                     let case = s.generate(&mut rng, cfg.thorough);
@@ -364,9 +384,11 @@ pub fn run_batch<S: Scenario>(s: &S, cfg: &BatchCfg) -> BatchOut {
         // confirm in a fresh process; a violation that stems from hash-iteration order (which
         // std randomises per process and the framework varies but cannot control) may need
         // several fresh processes to show again
+        heartbeat();
         let mut confirmed = replay_in_fresh_process(&path);
         let mut tries = 1;
         while tries < 12 && !matches!(&confirmed, Ok(Some(v)) if v.same_kind(&viol)) {
+            heartbeat();
             confirmed = replay_in_fresh_process(&path);
             tries += 1;
         }
@@ -462,6 +484,7 @@ fn execute_judged<S: Scenario>(s: &S, case: &S::Case, decisions: &[u64]) -> RunR
 }
 
 fn still_fails<S: Scenario>(s: &S, case: &S::Case, decisions: &[u64], want: &Violation) -> Option<(Vec<u64>, Violation)> {
+    heartbeat();
     let r = execute_judged(s, case, decisions);
     match r.violation {
         Some(v) if v.same_kind(want) => Some((r.decisions, v)),
@@ -544,12 +567,38 @@ pub fn replay_case<S: Scenario>(s: &S, rf: &ReplayFile) -> Result<RunResult, Str
 /// `<this exe> replay <path>` must print a line `REPLAY-VERDICT <json violation or null>`.
 pub fn replay_in_fresh_process(path: &Path) -> Result<Option<Violation>, String> {
     let exe = std::env::current_exe().map_err(|e| e.to_string())?;
-    let out = std::process::Command::new(exe)
+    let out_path = std::env::temp_dir().join(format!("verif-replay-{}-{}.out", std::process::id(), crate::fnv_str(&path.display().to_string())));
+    let mut child = std::process::Command::new(exe)
         .arg("replay")
         .arg(path)
         .env("VERIF_REPLAY_CHILD", "1")
-        .output()
+        .stdout(std::fs::File::create(&out_path).map_err(|e| e.to_string())?)
+        .stderr(std::process::Stdio::piped())
+        .spawn()
         .map_err(|e| e.to_string())?;
+    let t0 = Instant::now();
+    let mut timed_out = false;
+    loop {
+        match child.try_wait() {
+            Ok(Some(_)) => break,
+            Ok(None) => {
+                if t0.elapsed().as_secs() > HANG_CAP_S + 30 {
+                    let _ = child.kill();
+                    timed_out = true;
+                    break;
+                }
+                std::thread::sleep(std::time::Duration::from_millis(20));
+            }
+            Err(e) => return Err(e.to_string()),
+        }
+    }
+    let out = child.wait_with_output().map_err(|e| e.to_string())?;
+    let stdout_text = std::fs::read_to_string(&out_path).unwrap_or_default();
+    let _ = std::fs::remove_file(&out_path);
+    if timed_out {
+        return Ok(Some(process_aborted(&format!("the run did not end within {} s of real time", HANG_CAP_S + 30))));
+    }
+    let out = std::process::Output { status: out.status, stdout: stdout_text.into_bytes(), stderr: out.stderr };
     let text = String::from_utf8_lossy(&out.stdout);
     for l in text.lines() {
         if let Some(j) = l.strip_prefix("REPLAY-VERDICT ") {
@@ -588,6 +637,9 @@ fn read_u64s(p: &Path) -> Vec<u64> {
 /// space lock, separate processes do not.)
 ///
 /// Returns (merged partial, lines to print, violations, harness errors).
+/// real-time cap without progress after which a shard is considered to execute a run that never ends
+pub const HANG_CAP_S: u64 = 200;
+
 pub fn run_sharded(
     args: &[String],
     workers: usize,
@@ -598,7 +650,7 @@ pub fn run_sharded(
     let t0 = Instant::now();
     let exe = std::env::current_exe().expect("current_exe");
     let _ = std::fs::create_dir_all(work_dir);
-    let mut children = Vec::new();
+    let mut children: Vec<(usize, std::process::Child, PathBuf, PathBuf)> = Vec::new();
     for k in 0..workers {
         let partial = work_dir.join(format!("{tag}.shard{k}.json"));
         let distinct = work_dir.join(format!("{tag}.shard{k}.distinct"));
@@ -613,8 +665,8 @@ pub fn run_sharded(
             .arg(&distinct)
             .arg("--progress-file")
             .arg(work_dir.join(format!("{tag}.shard{k}.progress")))
-            .stdout(std::process::Stdio::piped())
-            .stderr(std::process::Stdio::piped());
+            .stdout(std::fs::File::create(work_dir.join(format!("{tag}.shard{k}.stdout"))).map(std::process::Stdio::from).unwrap_or_else(|_| std::process::Stdio::null()))
+            .stderr(std::fs::File::create(work_dir.join(format!("{tag}.shard{k}.stderr"))).map(std::process::Stdio::from).unwrap_or_else(|_| std::process::Stdio::null()));
         if let Some(s) = sig_file {
             cmd.arg("--child-sigs").arg(s.with_extension(format!("shard{k}")));
         }
@@ -641,16 +693,51 @@ pub fn run_sharded(
     let mut found_lines: Vec<(String, String)> = Vec::new();
     let mut crashed_runs: Vec<(u64, String)> = Vec::new();
     let mut known: BTreeMap<String, (u64, u64, String)> = BTreeMap::new();
-    for (k, child, partial, distinct_path) in children {
-        let out = match child.wait_with_output() {
-            Ok(o) => o,
-            Err(e) => {
-                harness_errors.push(format!("shard {k}: {e}"));
-                continue;
+    // wait for the shards; a shard whose progress file has not changed for HANG_CAP_S seconds is
+    // executing a run that never ends (a loop in the code under test that reaches no scheduling
+    // point and no step hook): it is killed and the run it names is reported like a crash
+    let mut statuses: Vec<Option<(Option<i32>, bool)>> = children.iter().map(|_| None).collect();
+    {
+        let mut last_progress: Vec<(String, Instant)> = children.iter().map(|_| (String::new(), Instant::now())).collect();
+        let mut children_mut: Vec<&mut std::process::Child> = Vec::new();
+        for c in children.iter_mut() {
+            children_mut.push(&mut c.1);
+        }
+        loop {
+            let mut all_done = true;
+            for (idx, child) in children_mut.iter_mut().enumerate() {
+                if statuses[idx].is_some() {
+                    continue;
+                }
+                match child.try_wait() {
+                    Ok(Some(st)) => statuses[idx] = Some((st.code(), false)),
+                    Ok(None) => {
+                        all_done = false;
+                        let pp = work_dir.join(format!("{tag}.shard{idx}.progress"));
+                        let cur = std::fs::read_to_string(&pp).unwrap_or_default();
+                        if cur != last_progress[idx].0 {
+                            last_progress[idx] = (cur, Instant::now());
+                        } else if last_progress[idx].1.elapsed().as_secs() > HANG_CAP_S {
+                            let _ = child.kill();
+                            let _ = child.wait();
+                            statuses[idx] = Some((None, true));
+                        }
+                    }
+                    Err(_) => statuses[idx] = Some((None, false)),
+                }
             }
-        };
-        let stdout = String::from_utf8_lossy(&out.stdout);
-        let stderr = String::from_utf8_lossy(&out.stderr);
+            if all_done {
+                break;
+            }
+            std::thread::sleep(std::time::Duration::from_millis(100));
+        }
+    }
+    for (idx, (k, _child, partial, distinct_path)) in children.into_iter().enumerate() {
+        let (code, hung) = statuses[idx].unwrap_or((None, false));
+        let stdout = std::fs::read_to_string(work_dir.join(format!("{tag}.shard{k}.stdout"))).unwrap_or_default();
+        let stderr = std::fs::read_to_string(work_dir.join(format!("{tag}.shard{k}.stderr"))).unwrap_or_default();
+        let _ = std::fs::remove_file(work_dir.join(format!("{tag}.shard{k}.stdout")));
+        let _ = std::fs::remove_file(work_dir.join(format!("{tag}.shard{k}.stderr")));
         let mut pending: Option<String> = None;
         for l in stdout.lines() {
             if l.starts_with("VIOLATION") {
@@ -662,12 +749,18 @@ pub fn run_sharded(
             }
         }
         let progress_path = work_dir.join(format!("{tag}.shard{k}.progress"));
-        match out.status.code() {
+        match code {
             Some(0) | Some(1) => {}
             Some(2) => harness_errors.push(format!("shard {k} exited with 2: {}", stderr.trim())),
+            _ if hung => {
+                match std::fs::read_to_string(&progress_path).ok().and_then(|t| t.split_whitespace().next().and_then(|x| x.parse::<u64>().ok())) {
+                    Some(i) => crashed_runs.push((i, format!("the run did not end: its shard made no progress for {HANG_CAP_S} s of real time and was killed"))),
+                    None => harness_errors.push(format!("shard {k} hung before its first run")),
+                }
+            }
             c => {
                 // the process died (signal, abort, stack overflow): name the run it was executing
-                match std::fs::read_to_string(&progress_path).ok().and_then(|t| t.trim().parse::<u64>().ok()) {
+                match std::fs::read_to_string(&progress_path).ok().and_then(|t| t.split_whitespace().next().and_then(|x| x.parse::<u64>().ok())) {
                     Some(i) => crashed_runs.push((i, format!("exit {c:?}: {}", stderr.trim().lines().last().unwrap_or("")))),
                     None => harness_errors.push(format!("shard {k} died ({c:?}) before its first run: {}", stderr.trim())),
                 }
